@@ -1,5 +1,5 @@
 add("C01", "H", "explicit-state BFS over API histories of the real Traph (bounded depth, exhaustive), lock-step reference model",
-    "Every history up to the stated depth over a colliding alphabet (pages, batches, link/crawl batches, webentity and rule edits, all insertion orders of short and multi-block stems) is executed on the real index; page enumeration, counts and write reports are compared with a dict model in every state and on every transition.",
+    "Every history up to the stated depth over a colliding alphabet (pages, batches, link/crawl batches, webentity and rule edits, all insertion orders of short, odd-byte and multi-block stems, str arguments), every crawl batch with <=2 sources x <=2 targets and every link batch of <=2-3 links over 4 pages from prepared states, and size letters (300 targets, 600 citations, 40 ascending siblings, stems up to 2 200 bytes) is executed on the real index; page enumeration, counts and write reports are compared with a dict model in every state and on every transition.",
     "DESIGN.md 6/C01")
 
 add("C03", "H", "explicit-state BFS over API histories of the real Traph (bounded depth, exhaustive), lock-step reference model",
